@@ -14,6 +14,10 @@ from multiprocessing import Pool
 from harness import common as C
 
 PROP = "C18"
+# 1: /repo contains the fix: commit for C18-F1 (create_backup also refuses a name that exists on disk);
+#    correspondence uses the model with fixed=true and the oracle accepts no known-finding class.
+# 0: the code before that commit (model fixed=false, stale-manager overwrite = known finding C18-F1).
+FIXED = int(os.environ.get("VERIF_C18_FIXED", "1"))
 COQ_TARGETS = ["Props/C18.vo", "Extract/ExtractC18.vo"]
 TRUSTED = [
     "Model/Backup.v is a hand transcription of BackupManager (__init__, create_backup, _get_backups, "
@@ -37,8 +41,9 @@ ASSUMPTIONS = [
     "C18_restore_identical / C18_remodel_idempotent / C18_remodel_from_backup are stated for runs that complete "
     "(a restore or remodel aborted by an OS error is outside the statement); the backup record seen by the "
     "second remodel run is taken equal to the first (the run provably never writes below backups/<name>)",
-    "C18_never_overwritten holds for a manager that lists the name; with a manager object created before the "
-    "backup existed it is refuted (C18_never_overwritten_stale_refuted, finding C18-F1)",
+    "C18_never_overwritten (code after the fix: commit, create_backup true): any manager object, any file system in "
+    "which backups/<name> exists; C18_never_overwritten_stale_refuted keeps the witness of the repaired defect "
+    "(create_backup false); VERIF_C18_FIXED=0 checks the pre-fix code against fixed=false",
 ]
 
 TS = "2026-01-02 03:04:05.678901"
@@ -308,6 +313,19 @@ def real_crash(scn):
                             out["violations"].append(["crash-other-backup", [n, k], msg])
             state = snapshot(d)
             out["points"].append({"pt": [n, k], "run": r, "outcome": oc, "state": state})
+            # C18_crash_then_create on the implementation: the manager object that was interrupted (constructed
+            # before the half-made directory existed) retries the same name: refused, nothing changes
+            if FIXED and k < 0 and 1 <= n < len(trace) and not existing and r == ["interrupted"]:
+                try:
+                    with Instr(d):
+                        r2 = ["ok", m.create_backup(abs_files(d, scn), scn["name"])]
+                except Exception as e:  # noqa
+                    r2 = ["exn", exn_name(e)]
+                st2 = snapshot(d)
+                if r2 != ["ok", False] or st2 != state:
+                    out["violations"].append(["crash-then-create", [n, k], f"retry on a half-made backup -> {r2}, "
+                                              f"changed {diff_state(st2, state)}"])
+                    state = st2
             if outside(state) != outside(base_state):
                 what = "never-overwritten" if existing else "create-touches-only"
                 out["violations"].append([what, [n, k], f"create_backup({scn['name']!r}) changed "
@@ -548,7 +566,7 @@ def model_ok_names(scn):
 
 def crash_request(scn, real):
     pts = [p["pt"] for p in real["points"]]
-    return C.to_sx(["crash", tree_sx(real["tree0"]), [P(f) for f in scn["files"]], C.cps(scn["name"]), C.cps(TS), pts])
+    return C.to_sx(["crash", FIXED, tree_sx(real["tree0"]), [P(f) for f in scn["files"]], C.cps(scn["name"]), C.cps(TS), pts])
 
 
 def hist_request(scn, real):
@@ -574,7 +592,7 @@ def hist_request(scn, real):
                           [[C.cps(a), C.cps(b)] for a, b in rec.get("optable", [])]])
         elif op == "list":
             steps.append(["list"])
-    return C.to_sx(["hist", tree_sx(real["tree0"]), steps])
+    return C.to_sx(["hist", FIXED, tree_sx(real["tree0"]), steps])
 
 
 def diff_state(a, b):
@@ -735,7 +753,7 @@ def gen_hist(rng, i):
         fl = files_of(tree)
     name = rng.choice(BNAMES)
     steps = []
-    stale = rng.random() < 0.05
+    stale = rng.random() < 0.15
     if stale:
         steps.append({"op": "hold", "id": "0"})
     if rng.random() < 0.25:
@@ -784,7 +802,7 @@ def gen_hist(rng, i):
 
 
 CORPUS = [
-    # C18-F1: a manager constructed before the backup existed overwrites it
+    # witness of the repaired C18-F1: a manager constructed before the backup existed must refuse
     {"kind": "hist", "tree": {"sub": None, "sub/a_task_x.t": "\x01\x02\x03", 'c"\\': "\x07"},
      "steps": [{"op": "hold", "id": "0"},
                {"op": "create", "files": ["sub/a_task_x.t", 'c"\\'], "name": "b1"},
@@ -824,7 +842,7 @@ def judge(scn, real, res, stats):
     for v in real["violations"]:
         clause, where, msg = v[0], v[1], v[2]
         tag = v[3] if len(v) > 3 else None
-        fid = "C18-F1" if (clause == "never-overwritten" and tag == "stale") else None
+        fid = "C18-F1" if (not FIXED and clause == "never-overwritten" and tag == "stale") else None
         res.report(clause, {"scenario": scn, "where": where}, msg, fid=fid)
         failed = True
     return failed
@@ -839,8 +857,16 @@ def run(tier, seed, res, model_ok=True, proof_ok=True):
     cases += [gen_crash(rng, i) for i in range(n_crash)]
     cases += [gen_crash(rng, 10 ** 6 + i, malformed=True) for i in range(n_mal)]
     cases += [gen_hist(rng, i) for i in range(n_hist)]
+    # import the code under test once, before forking, so the workers do not each pay for pandas/hed
+    import hed.tools.remodeling.cli.run_remodel, hed.tools.remodeling.cli.run_remodel_backup  # noqa
+    import hed.tools.remodeling.cli.run_remodel_restore, hed.tools.remodeling.dispatcher  # noqa
+    order = sorted(range(len(cases)), key=lambda i: -(len(cases[i]["files"]) * 40 if cases[i]["kind"] == "crash"
+                                                      else len(cases[i]["steps"])))
     with Pool(int(C.JOBS)) as pool:
-        reals = pool.map(real_case, cases, chunksize=4)
+        rs = pool.map(real_case, [cases[i] for i in order], chunksize=1)
+    reals = [None] * len(cases)
+    for i, r in zip(order, rs):
+        reals[i] = r
 
     failed = [judge(scn, real, res, None) for scn, real in zip(cases, reals)]
 
@@ -918,7 +944,7 @@ def replay(payload):
     kf = {f["id"] for f in C.known_findings().get("findings", []) if f.get("property") == PROP}
     bad = 0
     for v in real.get("violations", []):
-        known = v[0] == "never-overwritten" and len(v) > 3 and v[3] == "stale" and "C18-F1" in kf
+        known = (not FIXED) and v[0] == "never-overwritten" and len(v) > 3 and v[3] == "stale" and "C18-F1" in kf
         print("KNOWN" if known else "FAILS:", v[0], v[1], v[2])
         bad += 0 if known else 1
     if "harness_error" in real:
